@@ -42,7 +42,8 @@ class Voxel(BasePoint):
     """
 
     def __new__(cls, input_array, matrix_indexing=True):
-        obj = np.asarray(input_array).astype(int).view(cls)
+        # Floor (not truncate) to also cover negative, i.e., exterior points
+        obj = np.floor(np.asarray(input_array)).astype(int).view(cls)
         if not matrix_indexing:
             obj = np.fliplr(np.atleast_2d(obj)).reshape(obj.shape).view(cls)
         return obj
@@ -56,7 +57,8 @@ class VoxelCenter(BasePoint):
     """Voxel center coordinate."""
 
     def __new__(cls, input_array, matrix_indexing=True):
-        obj = np.asarray(input_array).astype(int)
+        # Floor (not truncate) to also cover negative, i.e., exterior points
+        obj = np.floor(np.asarray(input_array)).astype(int)
         obj = obj + 0.5 * np.ones(obj.shape)
         obj = obj.view(cls)
         if not matrix_indexing:
